@@ -1033,3 +1033,8 @@ F("U28", "C13", TS, "    if isinstance(test_result, float) or isinstance(test_re
 T("U29", "C13", TS, "    if isinstance(test_result, float) or isinstance(test_result, int):", "    if isinstance(test_result, (float, int)):", "one isinstance with a tuple")
 F("U30", "C14", ENS, "  if max_block_size is not None and step_size * max_block_size < n:", "  if max_block_size is not None:", "R-C14-SCATTER", "the 'truncation' may lengthen the input")
 T("U31", "C14", ENS, "  if max_block_size is not None and step_size * max_block_size < n:", "  if max_block_size is not None and n > max_block_size * step_size:", "comparison mirrored")
+T("U32", "C12", NS, "    if s > max_state2:\n      if s > maxs:\n        maxs = s\n    elif s < -max_state2:\n      if s < mins:\n        mins = s\n    elif s != 0:\n      cnt[s] += 1\n    else:\n      cnts.append(cnt)\n      cnt = collections.defaultdict(int)",
+  "    if s == 0:\n      cnts.append(cnt)\n      cnt = collections.defaultdict(int)\n    elif abs(s) <= max_state2:\n      cnt[s] += 1\n    elif s > 0:\n      maxs = max(maxs, s)\n    else:\n      mins = min(mins, s)", "digit loop restructured around abs(s)")
+T("U33", "C18", L + "rsa_util.py", "  r0 = ntheory_util.Inverse2exp(ntheory_util.InverseSqrt2exp(n, k + 1), k + 1)", "  inv_root = ntheory_util.InverseSqrt2exp(n, k + 1)\n  r0 = ntheory_util.Inverse2exp(inv_root, k + 1)", "optional result through a temporary")
+T("U34", "C18", L + "rsa_util.py", "  if n % 8 != 1:\n    return None\n  # Computes a square root r0", "  if 1 != n % 8:\n    return None\n  # Computes a square root r0", "guard mirrored")
+T("U35", "C18", L + "rsa_util.py", "  r0 = ntheory_util.Inverse2exp(ntheory_util.InverseSqrt2exp(n, k + 1), k + 1)", "  inv_root = ntheory_util.InverseSqrt2exp(n, k + 1)\n  if inv_root is None:\n    return None\n  r0 = ntheory_util.Inverse2exp(inv_root, k + 1)", "explicit None test added")
